@@ -1,2 +1,142 @@
-(* Props/C09.v — the property theorems of C09 and nothing else. *)
-From Verif Require Import Base Transform Setvar.
+(* Props/C09.v — the property theorems of C09 and nothing else.
+   C09: non-disruptive actions run once per match; counters add up exactly. The theorems hold for
+   EVERY operator semantics (op_eval), every environment, rule list and state. *)
+From Verif Require Import Base Transform Setvar SetvarProofs.
+From Coq Require Import ZArith List.
+Open Scope N_scope.
+
+(* every non-disruptive action of a link runs exactly once per value the link matched *)
+Theorem C09_once_per_match :
+  forall (opid : Type) (op_eval : opid -> env -> st -> bytes -> bool * list (N * bytes))
+         (e : env) (l : link opid) (lvl : nat) (s s' : st) (mds : list mdata),
+  eval_link op_eval e l lvl s = (s', mds) ->
+  exists new, s_trace s' = new ++ s_trace s /\
+    forall i a, nth_error (l_actions l) i = Some a -> is_nd a = true ->
+                count_tag (lvl, i) (act_tags new) = length mds.
+Proof. exact once_per_match_link. Qed.
+Print Assumptions C09_once_per_match.
+
+(* for a whole rule: action i of link k (starter = 0) runs once per matched value of that link
+   (0 times when the walk did not reach it); the starter's flow / disruptive actions and MatchRule
+   run exactly once when every link matched and not at all otherwise *)
+Theorem C09_starter_once_per_chain :
+  forall (opid : Type) (op_eval : opid -> env -> st -> bytes -> bool * list (N * bytes))
+         (e : env) (r : rule opid) (s : st),
+  exists new, s_trace (eval_rule op_eval e r s) = new ++ s_trace s /\
+    (forall k l i a, nth_error (rule_links opid r) k = Some l -> nth_error (l_actions l) i = Some a -> is_nd a = true ->
+       count_tag (k, i) (act_tags new) = nth k (rule_counts opid op_eval e r s) 0%nat) /\
+    fd_events new =
+      if chain_complete opid (rule_links opid r) (rule_counts opid op_eval e r s)
+      then (if (l_id (r_head r) =? 0)%Z then [] else [EvRuleMatched (l_id (r_head r))]) ++ rev (fd_names (l_actions (r_head r)))
+      else [].
+Proof. exact once_per_match_rule. Qed.
+Print Assumptions C09_starter_once_per_chain.
+
+(* a setvar's key and value macros are expanded in the state after the MATCHED_* update for that
+   very match and after the preceding actions of the list *)
+Theorem C09_macro_at_that_moment :
+  forall (opid : Type) (e : env) (l : link opid) (lvl : nat) (known : bool) (vn key value : bytes) (s : st)
+         (pre : list action) (a : setvar) (post : list action),
+  l_actions l = pre ++ ASetvar a :: post ->
+  let s0 := if known then st_log (EvMatching (link_rid l) vn key) s else s in
+  let sp := run_nd e (l_id l) lvl 0 pre (st_match_variable vn key value s0) in
+  let k := macro_expand e sp (sv_key a) in
+  let v := macro_expand_opt e sp (sv_value a) in
+  on_match e l lvl known vn key value s =
+    run_nd e (l_id l) lvl (S (length pre)) post
+      (st_with_tx (st_log (EvSetvar k v (l_id l)) (st_log (EvAct lvl (length pre) (str "setvar")) sp))
+                  (setvar_apply (sv_remove a) (lower_ascii k) v (s_tx sp)))
+  /\ s_mv sp = value /\ s_mvn sp = sv_match_name vn key.
+Proof. intros opid. exact (@macro_at_that_moment opid). Qed.
+Print Assumptions C09_macro_at_that_moment.
+
+(* exact accounting: a counter that every action either cannot reach or moves by a literal +N / -N
+   ends the transaction at its initial value plus, over the rules evaluated in order and over the
+   links of each, (matched values of the link) x (delta of the link) — provided the absolute sum
+   stays inside int64 (beyond that Go's addition wraps: see C09_setvar_arith) *)
+Theorem C09_sum :
+  forall (opid : Type) (op_eval : opid -> env -> st -> bytes -> bool * list (N * bytes)) (c : bytes),
+  has_nondigit c = true ->
+  forall (e : env) (rs : list (rule opid)) (s : st) (z : Z),
+  forallb (rule_ok opid c) rs = true ->
+  tx_counter (s_tx s) c = Some z ->
+  (Z.abs z + tx_sum opid op_eval (link_abs opid c) e rs s < two63)%Z ->
+  tx_counter (s_tx (eval_tx op_eval e rs s)) c = Some (z + tx_sum opid op_eval (link_delta opid c) e rs s)%Z.
+Proof. exact sum_exact. Qed.
+Print Assumptions C09_sum.
+
+(* HIGHEST_SEVERITY is the minimum of 255 and the severities set on the rules that fired *)
+Theorem C09_highest_severity_min :
+  forall (opid : Type) (op_eval : opid -> env -> st -> bytes -> bool * list (N * bytes))
+         (e : env) (rs : list (rule opid)),
+  rules_sev_ok opid rs = true ->
+  s_hs (eval_tx op_eval e rs st_init) = z_itoa (fold_min 255 (s_matched (eval_tx op_eval e rs st_init))).
+Proof. exact highest_severity_min_init. Qed.
+Print Assumptions C09_highest_severity_min.
+
+Theorem C09_highest_severity_invariant :
+  forall (opid : Type) (op_eval : opid -> env -> st -> bytes -> bool * list (N * bytes))
+         (h0 : Z) (e : env) (rs : list (rule opid)) (s : st),
+  rules_sev_ok opid rs = true -> hs_inv h0 s -> hs_inv h0 (eval_tx op_eval e rs s).
+Proof. exact highest_severity_min. Qed.
+Print Assumptions C09_highest_severity_invariant.
+
+(* ---- setvar semantics ---- *)
+Theorem C09_setvar_delete_removes : forall k v m, tx_get (setvar_apply true k v m) k = [].
+Proof. exact setvar_delete_removes. Qed.
+Print Assumptions C09_setvar_delete_removes.
+
+Theorem C09_setvar_assign_one_value : forall k c rest m,
+  (c =? 43) || (c =? 45) = false -> tx_get (setvar_apply false k (c :: rest) m) k = [c :: rest].
+Proof. exact setvar_assign_one_value. Qed.
+Print Assumptions C09_setvar_assign_one_value.
+
+Theorem C09_setvar_empty_value : forall k m, tx_get (setvar_apply false k [] m) k = [[]].
+Proof. exact setvar_empty_value. Qed.
+Print Assumptions C09_setvar_empty_value.
+
+(* +N / -N on a numeric (or absent / empty) current value: Go int addition, i.e. wrap at int64 *)
+Theorem C09_setvar_arith : forall k sign rest m cur n,
+  (sign = 43 \/ sign = 45) -> tx_counter m k = Some cur -> sv_operand rest = AOk n ->
+  tx_get (setvar_apply false k (sign :: rest) m) k =
+    [z_itoa (wrap64 (if sign =? 43 then (cur + n)%Z else (cur - n)%Z))].
+Proof. exact setvar_arith. Qed.
+Print Assumptions C09_setvar_arith.
+
+(* a current value that Atoi rejects: the action stores nothing *)
+Theorem C09_setvar_non_numeric_current : forall k sign rest m n,
+  (sign = 43 \/ sign = 45) -> tx_counter m k = None -> sv_operand rest = AOk n ->
+  setvar_apply false k (sign :: rest) m = m.
+Proof. exact setvar_non_numeric_current. Qed.
+Print Assumptions C09_setvar_non_numeric_current.
+
+(* an operand that Atoi rejects: nothing stored when it starts with "tx." (unresolved macro),
+   otherwise the literal text (sign included) replaces the value *)
+Theorem C09_setvar_non_numeric_operand : forall k sign rest m z,
+  (sign = 43 \/ sign = 45) -> sv_operand rest = AErr z ->
+  setvar_apply false k (sign :: rest) m =
+    if is_prefix (str "tx.") rest then m else tx_set m k [sign :: rest].
+Proof. exact setvar_non_numeric_operand. Qed.
+Print Assumptions C09_setvar_non_numeric_operand.
+
+Theorem C09_setvar_frame : forall rm k v m k2, k2 <> k -> tx_get (setvar_apply rm k v m) k2 = tx_get m k2.
+Proof. exact setvar_apply_frame. Qed.
+Print Assumptions C09_setvar_frame.
+
+Theorem C09_setvar_keys_distinct : forall rm k v m, NoDup (tx_keys m) -> NoDup (tx_keys (setvar_apply rm k v m)).
+Proof. exact setvar_apply_nodup. Qed.
+Print Assumptions C09_setvar_keys_distinct.
+
+(* what an arithmetic setvar writes is read back as the same integer *)
+Theorem C09_itoa_atoi_roundtrip : forall z, (- two63 <= z < two63)%Z -> atoi (z_itoa z) = AOk z.
+Proof. exact atoi_z_itoa. Qed.
+Print Assumptions C09_itoa_atoi_roundtrip.
+
+(* observed oddity (not a violation of the property as stated): the test that recognises an
+   unresolved %{tx.x} operand is case sensitive, %{TX.x} overwrites the counter with text *)
+Theorem C09_unresolved_operand_case_sensitive :
+  let m := [(str "score", [str "5"])] in
+  setvar_apply false (str "score") (str "+tx.inc") m = m /\
+  setvar_apply false (str "score") (str "+TX.inc") m = [(str "score", [str "+TX.inc"])].
+Proof. exact setvar_missing_operand_case. Qed.
+Print Assumptions C09_unresolved_operand_case_sensitive.
